@@ -120,6 +120,8 @@ structure Stored where
   ts : Nat
   ty : Nat
   data : List Nat
+  /-- a payload field that no upcaster touches (and that is omitted from the JSON when 0) -/
+  opt : Nat := 0
 deriving DecidableEq, Repr
 
 def upcastStored (g : Graph) (hasErrH : Bool) (e : Stored) : Stored × ApplyResult :=
